@@ -20,7 +20,8 @@ RULE = (
     "A case is a token list rendered to a marble string: runs of '-', values (single letters, words, letter+digits, "
     "ints with leading zeros, decimal and exponent floats), '|', '#', comma-separated groups '(a,12,|)' of 1-4 "
     "values/terminals, never two plain values adjacent, spaces inserted at arbitrary positions; plus timespan "
-    "(default, int, dyadic float, timedelta, non-dyadic 0.1/0.3), time shift (default, int, dyadic float, "
+    "(default, int, dyadic float, timedelta, non-dyadic 0.1/0.3; for delivery also hours or a day per frame, so that "
+    "timelines run past the first day of the virtual clock), time shift (default, int, dyadic float, "
     "timedelta), a lookup dict keyed by the parsed values of some marbles (str/int/float keys) and by absent keys, "
     "an optional error object and raise_stopped. Oracle computed from the token list only: time = index of the "
     "marble's first character in the space-free string (a group's elements: index of its '(') x timespan + shift "
@@ -30,8 +31,10 @@ RULE = (
     "value). deliver: from_marbles / cold (scheduler by factory argument or by subscribe) subscribed at t0 and again "
     "later -> parsed notifications at t0 + time; hot(duetime relative/timedelta/absolute datetime, created at tick "
     "tc) -> an immediate subscriber sees all at absolute times, a late subscriber exactly those after its "
-    "subscription (same-instant ties not judged); reactivex.testing.marbles_testing cold/hot/exp/start with integer "
-    "timespans (hot skips a marble at exactly the subscription time 200, as documented); marbles after a terminal "
+    "subscription (same-instant ties not judged), all on the TestScheduler or on the HistoricalScheduler (datetime "
+    "clock, 1 tick = 1 s); reactivex.testing.marbles_testing cold/hot/start with integer and fractional dyadic "
+    "timespans (hot skips a marble at exactly the subscription time 200, as documented; exp() judged for whole-tick "
+    "timespans only); marbles after a terminal "
     "make the factories raise ValueError. raw: strings decoded from bytes over the marble alphabet, scanned by a "
     "hand-written scanner for the documented language (strings outside it are counted and not judged), same oracle. "
     "Non-trivial: the diagram has a group or a multi-character value, and a '-' gap. Distinct = distinct case JSON. "
@@ -44,7 +47,7 @@ ASSUMPTIONS = [
     "not generated (undocumented): empty groups/elements, '-' or parentheses inside a group, unbalanced parentheses, commas outside groups, "
     "words that float() accepts (nan/inf/infinity), digit-leading alphanumerics other than decimal/exponent floats, underscores, non-ASCII",
     "from_marbles/hot are always given the virtual scheduler (their default is a NewThreadScheduler)",
-    "marbles_testing is exercised with integer timespans only (exp() truncates times with int())",
+    "marbles_testing's exp() is only judged with whole-tick timespans (it truncates times with int(), and exp is not named by the statement); cold/hot/start are judged with fractional timespans too",
     "a hot subscriber arriving at exactly the instant of a marble may or may not see it (scheduling order); such ties are excluded from the comparison",
 ]
 
@@ -302,7 +305,9 @@ def _run_deliver(case):
     if api in ("ctx_cold", "ctx_hot"):
         return _run_ctx(case, s, toks, msgs, after, lookup, err, err_tag, cls)
     ts_n, ts, exact = _num_native(case.get("ts"), 0.1)
-    lab = Lab()
+    clock = case.get("clock", "test")
+    lab = Lab("hist", tick_s=1.0) if clock == "hist" else Lab()  # hist: HistoricalScheduler, datetime clock, 1 tick = 1 s
+    cls.append(f"clock:{clock}")
     kw = {}
     if ts_n is not None:
         kw["timespan"] = ts_n
@@ -377,6 +382,8 @@ def _run_deliver(case):
         return FAIL(f"unexpected-ValueError|{api}", f"{api}({s!r}) raised {state['raised']}; case={case}", classes=cls)
     if len(probes) > 1:
         cls.append("second-subscriber")
+    if msgs and (Fraction(case["t0"]) if base is None else base) + msgs[-1][0] * ts >= 86400:
+        cls.append("timeline-beyond-one-day")
     for j, (p, t_sub) in enumerate(probes):
         okg, m = p.grammar_ok()
         if not okg:
@@ -407,6 +414,9 @@ def _run_ctx(case, s, toks, msgs, after, lookup, err, err_tag, cls):
     if 200 + len(s.replace(" ", "")) * ts >= 1000:
         return OK(False, cls + ["ctx-diagram-reaches-dispose-time-not-judged"])
     kwctx = {} if ts_n is None else {"timespan": ts_n}
+    whole = ts.denominator == 1  # exp() truncates times with int(): only judged for whole-tick timespans
+    if not whole:
+        cls.append("ctx-fractional-timespan")
     with marbles_testing(**kwctx) as (start, cold, hot, exp):
         try:
             o = (cold if api == "ctx_cold" else hot)(s, lookup, err)
@@ -415,7 +425,7 @@ def _run_ctx(case, s, toks, msgs, after, lookup, err, err_tag, cls):
                 # exp() does not reject: it parses the full diagram
                 recs = exp(s, lookup, err)
                 got = [[r.time] + _notif(r.value) for r in recs]
-                bad = _cmp(_exp_msgs(msgs, ts, Fraction(200), lookup, err_tag), got, True, f"exp({s!r})", case)
+                bad = _cmp(_exp_msgs(msgs, ts, Fraction(200), lookup, err_tag), got, True, f"exp({s!r})", case) if whole else None
                 if bad:
                     return FAIL(f"{bad[0]}|exp", f"{bad[1]}; case={case}", classes=cls)
                 return OK(nontrivial(toks), cls + ["ValueError-expected"])
@@ -426,7 +436,7 @@ def _run_ctx(case, s, toks, msgs, after, lookup, err, err_tag, cls):
         results = start(o)
     full = _exp_msgs(msgs, ts, Fraction(200), lookup, err_tag)
     got = [[r.time] + _notif(r.value) for r in recs]
-    bad = _cmp(full, got, True, f"exp({s!r})", case)
+    bad = _cmp(full, got, True, f"exp({s!r})", case) if whole else None
     if bad:
         return FAIL(f"{bad[0]}|exp", f"{bad[1]}; case={case}", classes=cls)
     want = full
@@ -704,13 +714,23 @@ def _deliver_case(draw):
     toks = draw(_tokens(conforming=draw(st.sampled_from(["as-is", "cut-at-terminal", "cut-at-terminal", "cut-at-terminal", "end-with-terminal"]))))
     c = {"api": api, "toks": toks, "sp": draw(_spaces), "lookup": draw(_lookup(toks)), "error": draw(st.sampled_from([None, "boom"]))}
     if api in ("ctx_cold", "ctx_hot"):
-        c["ts"] = draw(st.sampled_from([None, ["n", 1], ["n", 2], ["n", 3], ["n", 1.0], ["td", 2000000]]))
+        c["ts"] = draw(st.sampled_from([None, ["n", 1], ["n", 2], ["n", 3], ["n", 1.0], ["td", 2000000], ["n", 0.5], ["n", 0.25], ["n", 1.5], ["td", 500000]]))
         return c
-    c["ts"] = draw(st.one_of(st.none(), st.sampled_from([1, 2, 3, 0.5, 0.25, 1.5]).map(lambda v: ["n", v]), st.sampled_from([1000000, 500000]).map(lambda v: ["td", v]), st.just(["x", "0.1"])))
-    c["t0"] = draw(st.sampled_from([0, 1, 5, 200]))
+    c["ts"] = draw(
+        st.one_of(
+            st.none(),
+            st.sampled_from([1, 2, 3, 0.5, 0.25, 1.5]).map(lambda v: ["n", v]),
+            st.sampled_from([1000000, 500000]).map(lambda v: ["td", v]),
+            st.just(["x", "0.1"]),
+            # hours or a day per frame: the timeline leaves the first day of the virtual clock
+            st.sampled_from([["n", 3600], ["n", 30000], ["n", 86400], ["n", 43200.5], ["td", 21600 * 10**6]]),
+        )
+    )
+    c["t0"] = draw(st.sampled_from([0, 1, 5, 200, 200, 100000]))
+    c["clock"] = draw(st.sampled_from(["test", "test", "hist"]))
     c["gap"] = draw(st.sampled_from([None, 1, 3, 4, 7]))
     if api == "hot":
-        c["due"] = draw(st.one_of(st.none(), st.sampled_from([0, 1, 2, 0.5, 10]).map(lambda v: ["n", v]), st.sampled_from([1000000, 500000]).map(lambda v: ["td", v])))
+        c["due"] = draw(st.one_of(st.none(), st.sampled_from([0, 1, 2, 0.5, 10, 90000]).map(lambda v: ["n", v]), st.sampled_from([1000000, 500000, 172800 * 10**6]).map(lambda v: ["td", v])))
         if draw(st.integers(0, 3)) == 0:
             c["due"] = ["abs", c["t0"] + draw(st.sampled_from([0, 1, 2.5, 10]))]
     else:
